@@ -17,7 +17,7 @@ META = {
     "note": "Recursion guards proved; totality explored, not proved. The search DOES find crashes: unguarded recursions over "
             "self-referential generics / aliases / class graphs overflow the stack (process abort), exponential type checks hang. Six "
             "classes were repaired in /repo (comment inside index brackets ccf2a41, remove_type 66e20f3, narrow_down_type c568a5f, "
-            "call-non-callable 294e839, integer constant folding overflow c3dc79d, long-string value 44d94e8); twelve remain open findings (findings/C12.json), identified "
+            "call-non-callable 294e839, integer constant folding overflow c3dc79d, long-string value 44d94e8); fourteen remain open findings (findings/C12.json), identified "
             "by the function in which the stack overflows / the time is spent, and the check fails on any crash with a new signature. "
             "Trusted: Coq kernel; the hand models (the type-check / sub-type model is validated by correspondence, the InferGuard and "
             "humanizer skeletons only by reading + constants/anchors regenerated from source); gdb for crash signatures; the search is "
